@@ -303,6 +303,24 @@ def run_case(ctx, case):
         return
     if len(ctx.samples) < 4 and case.get("wild"):
         ctx.sample({"cmd": cmd, "params": params, "inputs": [arr.describe(a, 6) for a in inputs], "result": arr.describe(res, 6)})
+    if cmd in ("FuzzySelectedUnion", "FuzzyXOr") and isinstance(res, numpy.ndarray) and res.dtype.kind == "f":
+        # another command of the same family over other fields of the same number, shape and type that are missing everywhere
+        # (their cells hold the fill value underneath): the first result is still fuzzy afterwards
+        n_ = max(2, len(inputs)) if cmd == "FuzzyXOr" else len(inputs)
+        blanks = []
+        for k_ in range(n_):
+            src_ = inputs[k_ % len(inputs)]
+            blanks.append(numpy.ma.array(numpy.full(src_.shape, 1e20, dtype=src_.dtype if src_.dtype.kind == "f" else "float64"), mask=numpy.ones(src_.shape, dtype=bool)))
+        for later in ("FuzzySelectedUnion", "FuzzyXOr"):
+            if later == "FuzzyXOr" and n_ < 2:
+                continue
+            lp = {"TruestOrFalsest": "Truest", "NumberToConsider": 1} if later == "FuzzySelectedUnion" else {}
+            arr.run_cmd(later, blanks, lp, fuzzy_inputs=True)
+        ctx.count("quiescent_rechecks")
+        bad = _range_bad(res)
+        if bad:
+            ctx.fail("%s:%s-after-a-later-command-of-the-same-family-on-other-fields" % (cmd, bad[0]), {"range": bad[1], "params": params})
+            return
     # quiescent re-check: a later consumer must not push the finished fuzzy result out of range
     cons = case.get("consumer")
     if cons and isinstance(res, numpy.ndarray):
